@@ -1,6 +1,7 @@
 mod f_astro;
 mod f_block;
 mod f_bounded;
+mod f_cli;
 mod f_goodday;
 mod f_hijri;
 mod f_params;
